@@ -356,6 +356,16 @@ def multi_item_part(ctx):
                     continue
                 rules = picks[i][1]
                 rootb = os.fsencode(os.path.realpath(os.path.join(w.src, w.items[i])))
+                # the Gallina filter model's verdicts for the same item (tag 1400, the item's own spec text): every item-relative path and prefix
+                rels = set()
+                for dp, dn, fl in os.walk(rootb):
+                    for nme in dn + fl:
+                        rel = os.path.join(dp, nme)[len(rootb) + 1:]
+                        try:
+                            rels.add(rel.decode())
+                        except UnicodeDecodeError:
+                            pass
+                verdicts = w.allowed(i, sorted(rels))
                 for dp, dn, fl in os.walk(rootb):
                     for nme in dn + fl:
                         full = os.path.join(dp, nme)
@@ -367,6 +377,16 @@ def multi_item_part(ctx):
                         want = all(allowed_by(rules, b"/".join(parts[:j + 1])) for j in range(len(parts)))
                         got = full.lstrip(b"/") in have
                         ctx.count("multi.paths_kept" if got else "multi.paths_excluded")
+                        prefixes = [b"/".join(parts[:j + 1]).decode("utf-8", "surrogateescape") for j in range(len(parts))]
+                        if all(q in verdicts for q in prefixes):
+                            want_model = all(verdicts[q] for q in prefixes)
+                            ctx.count("multi.model_verdicts")
+                            if want_model != got and want == got:
+                                ctx.violation("multi-item-model", "correspondence filter-model no longer checks: items %s, item %d with rules %r: %r is %s the "
+                                              "backup, the filter model says %s" % (state, i, picks[i][0], rel.decode("utf-8", "replace"),
+                                                                                    "in" if got else "missing from", "allowed" if want_model else "denied"),
+                                              {"items": state, "filters": [f for f, _ in picks], "item": i, "path": rel.decode("utf-8", "replace")}, failing_input=False)
+                                return
                         if want != got:
                             ctx.violation("multi-item", "items %s, item %d with rules %r: %r is %s the backup, but %s" % (
                                 state, i, picks[i][0], rel.decode("utf-8", "replace"), "in" if got else "missing from",
